@@ -82,9 +82,18 @@ class PySHACLRunType(metaclass=ABCMeta):
                 destination_graph = target_graph.default_context
         else:
             destination_graph = None
+        # owlrl swaps rdflib's process-wide table of literal converters for its own while it expands a graph and
+        # restores only the entries rdflib defines: its extra converters (xsd:gYear, xsd:NCName, ...) would stay
+        # behind for every later call in the process, and the whole table after a failed expansion.
+        from rdflib.term import _toPythonMapping
+
+        saved_literal_converters = dict(_toPythonMapping)
         try:
             inferencer.expand(target_graph, destination=destination_graph)
         except Exception as e:  # pragma: no cover
             raise
             logger.error("Error while running OWL-RL Deductive Closure")
             raise ReportableRuntimeError("Error while running OWL-RL Deductive Closure\n{}".format(str(e.args[0])))
+        finally:
+            _toPythonMapping.clear()
+            _toPythonMapping.update(saved_literal_converters)
